@@ -751,10 +751,10 @@ func c16Run(c *fw.Ctx, i int) {
 		return
 	}
 	r := c.R
-	sizes := []int{0, 1, 3, 20}
-	g := gen.NewFG(r, gen.FGOpts{People: sizes[i%4], MultiNames: true, MissingBits: true, WithUIDs: true})
+	sizes := []int{0, 1, 3, 20, 0, 1, 3, 150}
+	g := gen.NewFG(r, gen.FGOpts{People: sizes[i%8], MultiNames: true, MissingBits: true, WithUIDs: true})
 	text := g.Text()
-	if sizes[i%4] == 0 {
+	if sizes[i%8] == 0 {
 		text = "0 HEAD\n0 TRLR\n"
 	}
 	fresh := func() *gedcom.Document {
@@ -868,6 +868,29 @@ func c16Run(c *fw.Ctx, i int) {
 			c.Violation("law-inlining:"+shape, fmt.Sprintf("%s fails (%v) although %s evaluates", vq, ev, e.q), payload)
 		} else if nv, _ := c16Norm(rv); !c16Same(nv, gn) {
 			c.Violation("law-inlining:"+shape, fmt.Sprintf("%s = %s\nbut %s = %s", vq, c16JSON(rv), e.q, c16JSON(got)), payload)
+		}
+		// variables that are looked up once per item (inside an object, inside
+		// the condition of Only) on lists of every length
+		if c16IsList(e.typ) {
+			for _, pq := range [][2]string{
+				{e.q + ` | { a: "k", n: 7 }`, `K is "k"; N is 7; ` + e.q + ` | { a: K, n: N }`},
+				{e.q + ` | Only("k" = "k")`, `K is "k"; ` + e.q + ` | Only(K = "k")`},
+				{e.q + ` | Only("k" != "k") | Length`, `K is "k"; ` + e.q + ` | Only(K != "k") | Length`},
+			} {
+				iv, ierr := c16Eval(pq[0], []*gedcom.Document{fresh()})
+				if ierr != nil {
+					continue
+				}
+				c.Count("law-inlining-per-item", 1)
+				in, _ := c16Norm(iv)
+				if rv, ev := c16Eval(pq[1], []*gedcom.Document{fresh()}); ev != nil {
+					c.Violation("law-inlining-per-item:"+shape, fmt.Sprintf("%s fails (%v) although %s evaluates", pq[1], clip(ev.Error(), 200), pq[0]), payload)
+					break
+				} else if nv, _ := c16Norm(rv); !c16Same(nv, in) {
+					c.Violation("law-inlining-per-item:"+shape, fmt.Sprintf("%s = %s\nbut %s = %s", pq[1], clip(c16JSON(rv), 300), pq[0], clip(c16JSON(iv), 300)), payload)
+					break
+				}
+			}
 		}
 		// list laws
 		if c16IsList(e.typ) {
